@@ -85,9 +85,18 @@ def check(an, rep, tier):
         yold_ok = e_expr is not None and any(
             isinstance(x, ast.Name) and x.id == old_name and old_name
             for x in ast.walk(e_expr))
+        # a key that IS stored in the sweep body, but before the last core
+        # store / not from the returned tensor / not against the head copy, is
+        # stale (violation); keys refreshed elsewhere (a helper) are not
+        # decided here
+        stale = last_store is not None and any(
+            (i <= last_store or not u) for i, u, _ in keys.values())
+        if e_expr is not None and not yold_ok:
+            stale = True
         rep.add('P-fresh-info', 'cross.cross', 'end of sweep: info r / e / '
                 'e_vld from the final Y', 'ok' if ok and yold_ok else
-                'violation', '' if ok and yold_ok else 'the reported rank / '
+                ('violation' if stale else 'unknown'),
+                '' if ok and yold_ok else 'the reported rank / '
                 'convergence / validation values are not recomputed from the '
                 'returned tensor after its last core store (or e is not '
                 'taken against the copy from the head of the sweep)',
@@ -131,8 +140,13 @@ def check(an, rep, tier):
             line=fn.node.lineno, file=mod.path)
     # --- P-cache-value
     fe = prog.func('cross._func_eval')
+    P._LEN_CTX[0] = fe.node
+
+    def _len_origin(e):
+        return P.len_origin(e)
     rets = [n for n in ast.walk(fe.node) if isinstance(n, ast.Return) and
-            n.value is not None]
+            n.value is not None and not (isinstance(n.value, ast.Constant)
+                                         and n.value.value is None)]
     good = 0
     wrong_order = None
     for r in rets:
@@ -147,10 +161,10 @@ def check(an, rep, tier):
             if isinstance(a0, ast.Name):
                 good += 1               # np.array(y, dtype=float)
             elif isinstance(a0, ast.ListComp) and \
-                    isinstance(a0.generators[0].iter, ast.Name) and \
-                    a0.generators[0].iter.id == fe.params[1] and \
-                    not a0.generators[0].ifs:
-                good += 1               # [cache[tuple(i)] for i in I]
+                    not a0.generators[0].ifs and \
+                    _len_origin(a0.generators[0].iter) == fe.params[1]:
+                good += 1               # [cache[tuple(i)] for i in I], also
+                #                         over keys = [tuple(i) for i in I]
             elif isinstance(a0, ast.ListComp) and \
                     isinstance(a0.generators[0].iter, ast.Name):
                 # values looked up for another index list than the batch
